@@ -1,3 +1,9 @@
-#![allow(dead_code, unused_imports, clippy::all)]
+#![allow(dead_code, unused_imports, unused_variables, unused_macros, clippy::all)]
+#[cfg(kani)]
+mod util;
+#[cfg(kani)]
+mod c08;
+#[cfg(kani)]
+mod c13;
 #[cfg(kani)]
 mod c19;
